@@ -76,6 +76,18 @@ def spy_crawls():
     _SPIED = True
 
 
+class KeyGen:
+    """deterministic curve25519 keys (the whole check is a function of VERIF_SEED)"""
+
+    def __init__(self, label):
+        import random
+        self.rng = random.Random("g02-%s" % (label,))
+
+    def __call__(self):
+        from ipv8.keyvault.crypto import default_eccrypto
+        return default_eccrypto.key_from_private_bin(b"LibNaCLSK:" + self.rng.randbytes(64))
+
+
 def own_node_id(address, public_key_bin):
     ip = socket.inet_aton(address[0])
     masked = bytes(b & m for b, m in zip(ip, b"\x03\x0f\x3f\xff"))
@@ -96,8 +108,9 @@ class Escape(Exception):
 class Puppets:
     """N nodes with real keys on one simulated network; they never answer by themselves."""
 
-    def __init__(self, n, target, loop_kind="tick"):
+    def __init__(self, n, target, loop_kind="tick", seed=0):
         from ipv8.dht.community import DHTCommunity
+        self.keygen = KeyGen("puppets-%d-%d" % (n, seed))
         self.loop = get_loop(loop_kind)
         self.net = SimNet(self.loop, auto=False)
         self.target = target
@@ -106,7 +119,7 @@ class Puppets:
         self.crawler_node = None
         raw = []
         for _ in range(n):
-            nd = nodes.Node(self.net)
+            nd = nodes.Node(self.net, key=self.keygen())
             ov = nd.add(DHTCommunity)
             ov.cancel_all_pending_tasks()
             raw.append((nd, ov))
@@ -158,7 +171,7 @@ class Puppets:
             old.request_cache.cancel_all_pending_tasks()
             self.crawler_node.endpoint.close()
         if self.crawler_key is None:
-            nd = nodes.Node(self.net)
+            nd = nodes.Node(self.net, key=self.keygen())
             self.crawler_key, self.crawler_addr = nd.key, tuple(nd.address)
         else:
             nd = nodes.Node(self.net, key=self.crawler_key, ip=self.crawler_addr[0], port=self.crawler_addr[1])
@@ -432,12 +445,13 @@ class NodeWorld:
     """A real DHTCommunity S with its PingChurn strategy and one puppet c with a real key.  Plain virtual clock (exact
     arithmetic on whole seconds); maintenance tasks of S are cancelled, take_step is an explicit action."""
 
-    def __init__(self):
+    def __init__(self, seed=0):
         from ipv8.dht.community import DHTCommunity
+        self.keygen = KeyGen("nodeworld-%d" % seed)
         self.loop = get_loop("plain")
         self.net = SimNet(self.loop, auto=False)
         self.DHTCommunity = DHTCommunity
-        self.puppet = nodes.Node(self.net)
+        self.puppet = nodes.Node(self.net, key=self.keygen())
         self.pov = self.puppet.add(DHTCommunity)
         self.pov.cancel_all_pending_tasks()
         self.pk = self.puppet.my_peer.public_key.key_to_bin()
@@ -452,7 +466,7 @@ class NodeWorld:
             old.request_cache.cancel_all_pending_tasks()
             self.server.endpoint.close()
         if self.server_key is None:
-            nd = nodes.Node(self.net)
+            nd = nodes.Node(self.net, key=self.keygen())
             self.server_key, self.server_addr = nd.key, tuple(nd.address)
         else:
             nd = nodes.Node(self.net, key=self.server_key, ip=self.server_addr[0], port=self.server_addr[1])
@@ -687,12 +701,13 @@ def spec_node_projection(st, consts):
 class FindWorld:
     """A fresh real DHTCommunity with up to two routing tables (IPv4, IPv6), one puppet node per table."""
 
-    def __init__(self):
+    def __init__(self, seed=0):
         from ipv8.dht.community import DHTCommunity
+        self.keygen = KeyGen("findworld-%d" % seed)
         self.loop = get_loop("tick")
         self.net = SimNet(self.loop, auto=False)
         self.DHTCommunity = DHTCommunity
-        self.puppets = [nodes.Node(self.net), nodes.Node(self.net, ip="fd00::7", port=8090)]
+        self.puppets = [nodes.Node(self.net, key=self.keygen()), nodes.Node(self.net, key=self.keygen(), ip="fd00::7", port=8090)]
         self.povs = [p.add(DHTCommunity) for p in self.puppets]
         for p in self.povs:
             p.cancel_all_pending_tasks()
@@ -706,7 +721,7 @@ class FindWorld:
             self.node.overlay.request_cache.cancel_all_pending_tasks()
             self.node.endpoint.close()
         if self.key is None:
-            nd = nodes.Node(self.net)
+            nd = nodes.Node(self.net, key=self.keygen())
             self.key, self.addr = nd.key, tuple(nd.address)
         else:
             nd = nodes.Node(self.net, key=self.key, ip=self.addr[0], port=self.addr[1])
@@ -716,8 +731,8 @@ class FindWorld:
         self.net.inflight.clear()
         return ov
 
-    def run_find(self, tables, debug):
-        """tables: tuple of value-id tuples.  -> the projection of what find_values returned"""
+    def run_find(self, tables, debug, mode="values"):
+        """tables: tuple of value-id tuples.  -> the projection of what find_values / find_nodes returned"""
         from ipv8.dht.payload import FindRequestPayload, FindResponsePayload
         from ipv8.dht.routing import Node as DhtNode
         from ipv8.messaging.payload_headers import BinMemberAuthenticationPayload
@@ -728,7 +743,8 @@ class FindWorld:
                 raise MachineryError("could not fill routing table %d" % i)
         if len(ov.routing_tables) != len(tables):
             raise MachineryError("expected %d routing tables, the overlay has %d" % (len(tables), len(ov.routing_tables)))
-        fut = asyncio.ensure_future(ov.find_values(TARGET_ID, debug=debug), loop=self.loop)
+        coro = ov.find_values(TARGET_ID, debug=debug) if mode == "values" else ov.find_nodes(TARGET_ID, debug=debug)
+        fut = asyncio.ensure_future(coro, loop=self.loop)
         fut.add_done_callback(lambda f: f.cancelled() or f.exception())
         self.loop.settle()
         by_addr = {tuple(p.address): i for i, p in enumerate(self.puppets)}
@@ -752,8 +768,15 @@ class FindWorld:
             return {"done": True, "ok": False, "values": (), "ncrawls": 0, "exception": repr(fut.exception())}
         res = fut.result()
         crawls = 0
-        if debug:
-            res, cr = res
-            crawls = len(cr)
-        return {"done": True, "ok": True, "ncrawls": crawls,
-                "values": tuple(int(d[6:]) if pk is None and d.startswith(b"value-") else -1 for d, pk in res)}
+        try:
+            if debug:
+                res, cr = res
+                crawls = len(cr) if all(type(c).__name__ == "Crawl" for c in cr) else -1
+            if mode == "values":
+                vals = tuple(int(d[6:]) if pk is None and d.startswith(b"value-") else -1 for d, pk in res)
+            else:
+                pks = [p.my_peer.public_key.key_to_bin() for p in self.puppets]
+                vals = tuple(101 + pks.index(n.public_key.key_to_bin()) for n in res)
+        except Exception as e:  # noqa: BLE001
+            return {"done": True, "ok": False, "values": (), "ncrawls": 0, "exception": "malformed result: %r" % (e,)}
+        return {"done": True, "ok": True, "ncrawls": crawls, "values": vals}
